@@ -42,6 +42,9 @@ NEEDS = {
  "C06-3": "a zig-zag long enough for a second corpus expansion (corpus grows by 3 segments, its end marker by 2)",
 }
 UNDETECTABLE = {
+ "C06-1": "produced and confirmed against the tree before the repair of F9, where the change made SnapPolygon panic (slice bounds out of range in RemoveSequences) and the bounded stand-in ring-assembly-small-alphabet caught it with a failing input; since the repair (fa24396) RemoveSequences tolerates the overlapping / out-of-range removal range the change produces, SnapPolygon returns normally, and what is left is a different de-duplication result (area / crossing properties C18, C01, not applicable here): no longer a violation of C06 on the current tree",
+ "C06-2": "produced and confirmed against the tree before the repair of F9, where the change made SnapPolygon panic (slice bounds out of range in RemoveSequences) and the bounded stand-in ring-assembly-small-alphabet caught it with a failing input; since the repair (fa24396) RemoveSequences tolerates the overlapping / out-of-range removal range the change produces, SnapPolygon returns normally, and what is left is a different de-duplication result (area / crossing properties C18, C01, not applicable here): no longer a violation of C06 on the current tree",
+ "C06-3": "produced and confirmed against the tree before the repair of F9, where the change made SnapPolygon panic (slice bounds out of range in RemoveSequences) and the bounded stand-in ring-assembly-small-alphabet caught it with a failing input; since the repair (fa24396) RemoveSequences tolerates the overlapping / out-of-range removal range the change produces, SnapPolygon returns normally, and what is left is a different de-duplication result (area / crossing properties C18, C01, not applicable here): no longer a violation of C06 on the current tree",
  "C05-1": "the change is in snap.isHitMultiple (repeated-vertex lookup), part of the ring assembly, which is outside the verified functions; the function it changes (isHitMultiple) was replaced by the repair of F4 (5f44606), so the patch no longer applies; before that repair it needed negative coordinates whose pixel centres do not survive the float round trip",
  "C05-2": "the change is in snap.splitRing (orientation of unsplit rings), part of the ring assembly, outside the verified functions; orientation is listed as not decided in the C05 claim",
  "C05-3": "the change is in snap.matchInnersToPolygons (a trusted leaf: only 'never fewer polygons than given' is assumed of it); orientation of rings is listed as not decided in the C05 claim",
